@@ -740,13 +740,23 @@ func runLifeCase(c cfg, seed uint64, o lifeOpts, keys map[string]struct{}) (eval
 						}
 					}()
 					regLn = ln
-					for k := 0; k < 20 && !s.shutdownFired.Load(); k++ {
-						if ch, err := life.eng.Register(gnet.NewNetAddrContext(context.Background(), ln.Addr())); err == nil {
-							select {
-							case <-ch:
-							case <-time.After(2 * time.Second):
-							}
+					// OnBoot comes before the loops are registered: until then Register reports the empty-engine error
+					waitCondQuick(3*time.Second, func() bool { return gnet.VerifNumLoops(life.eng) == c.Loops })
+					for k := 0; k < 40 && !s.shutdownFired.Load(); k++ {
+						ch, err := life.eng.Register(gnet.NewNetAddrContext(context.Background(), ln.Addr()))
+						if err != nil {
+							time.Sleep(20 * time.Millisecond) // not accepted: nothing was requested yet
+							continue
 						}
+						select {
+						case <-ch:
+						case <-time.After(2 * time.Second):
+						}
+					}
+					if !s.shutdownFired.Load() {
+						res.Inconc("life %s: no registered connection reached OnOpen, shutdown was never requested", c)
+						s.armAll()
+						go func() { _ = life.stop(10 * time.Second) }()
 					}
 					s.key(c.class() + "|shutdown-from-OnOpen-of-a-registered-connection")
 				}
